@@ -49,7 +49,10 @@ Proof.
     destruct cb; [rewrite seqs_len_set_cache|unfold update_seq; rewrite seqs_len_set_seq]; exact L.
 Qed.
 Lemma seqs_len_finalize st i : length (seqs (finalize st i)) = length (seqs st).
-Proof. unfold finalize. destruct (scache _); auto. unfold shrink, update_seq. simpl. apply upd_length. Qed.
+Proof.
+  unfold finalize. destruct (scache _); auto. unfold shrink.
+  destruct (is_view _); unfold update_seq; simpl; apply upd_length.
+Qed.
 Lemma seqs_len_fold_append st i bpr els :
   length (seqs (fold_left (fun s e => do_append s i bpr e true) els st)) = length (seqs st).
 Proof. revert st; induction els; simpl; intros; auto. rewrite IHels. apply seqs_len_do_append. Qed.
@@ -568,7 +571,7 @@ Proof.
     { unfold st1, update_seq. rewrite getseq_set_seq, Nat.eqb_refl by auto. reflexivity. }
     assert (Hi1 : i < length (seqs st1)) by (unfold st1, update_seq; rewrite seqs_len_set_seq; auto).
     assert (NO : next_offset (c_offs c) (c_lens c) = c_next c) by (rewrite A4; apply (next_offset_chain 0); auto).
-    unfold shrink. rewrite G1. cbn [sbuf offs lens]. rewrite NO.
+    unfold shrink. rewrite G1. cbn [sbuf offs lens is_view]. rewrite A1, NO.
     change (getbuf (heap st1) (sbuf (getseq st i))) with (getbuf (heap st) (sbuf (getseq st i))).
     set (x := mkBuf (Z.of_nat (c_next c)) (firstn (c_next c) (rows (getbuf (heap st) (sbuf (getseq st i)))))).
     assert (LX : length (rows x) = c_next c).
@@ -584,7 +587,7 @@ Proof.
     assert (G2 : getseq (set_buf st1 (sbuf (getseq st i)) x) i = getseq st1 i) by reflexivity.
     rewrite G2, G1. cbn [scache is_view bufbytes live sbuf offs lens].
     split; [|split; [auto|split; [|auto]]].
-    + intros K HK. specialize (HK A1). unfold frontier, full_offs, full_lens in HK. rewrite Ec in HK.
+    + intros K HK. specialize (HK eq_refl). unfold frontier, full_offs, full_lens in HK. rewrite Ec in HK.
       unfold frame. rewrite G2, G1. cbn [sbuf].
       split; [unfold set_buf; simpl; apply upd_length|split; [unfold set_buf, st1; simpl; rewrite upd_length; lia|]].
       split; [intros k Hk; change (getseq (set_buf st1 (sbuf (getseq st i)) x) k) with (getseq st1 k);
